@@ -8,24 +8,30 @@ agreement with get_birth_year/get_birth_month only.
 
 # module: (yy slice, mm slice, dd slice, month reduction, day reduction, century rule or None)
 #   month reduction / day reduction: function names interpreted by the check ('id', 'mod20', 'mod50mod20', 'mod40')
-#   century rule: 'pesel' = 1900 + 100*(mm // 20) for mm // 20 in 0..3, 1800 for 4
+#   century rule: 'pesel' = 1900 + 100*(mm // 20) for mm // 20 in 0..3, 1800 for 4; 'egn' = +20 -> 18xx, +40 -> 20xx;
+#   a dict(at=index, map={marker character: century}) = the century is designated by one character of the number (markers that
+#   are not listed designate no century: nothing is required for them); 'emso' = three-digit year, below 800 -> 2yyy, else 1yyy;
+#   'cpr' = Danish rule on the 7th digit c and yy: c 0-3 -> 19; c 4 or 9 -> 20 if yy <= 36 else 19; c 5-8 -> 20 if yy <= 57 else 18;
+#   'fnr' = Norwegian rule on the individual number iii (digits 7-9) and yy: iii < 500 -> 19; 500-749 and yy >= 54 -> 18;
+#   900-999 and yy >= 40 -> 19; 500-999 and yy < 40 -> 20 (other combinations designate no century)
+_D = lambda **kw: kw      # noqa: E731
 RULES = {
     'stdnum.pl.pesel': ((0, 2), (2, 4), (4, 6), 'mod20', 'id', 'pesel'),
     'stdnum.bg.egn': ((0, 2), (2, 4), (4, 6), 'mod20', 'id', 'egn'),
     'stdnum.cz.rc': ((0, 2), (2, 4), (4, 6), 'mod50mod20', 'id', None),
-    'stdnum.dk.cpr': ((4, 6), (2, 4), (0, 2), 'id', 'id', None),
-    'stdnum.ee.ik': ((1, 3), (3, 5), (5, 7), 'id', 'id', None),
-    'stdnum.lt.asmens': ((1, 3), (3, 5), (5, 7), 'id', 'id', None),
-    'stdnum.ro.cnp': ((1, 3), (3, 5), (5, 7), 'id', 'id', None),
+    'stdnum.dk.cpr': ((4, 6), (2, 4), (0, 2), 'id', 'id', 'cpr'),
+    'stdnum.ee.ik': ((1, 3), (3, 5), (5, 7), 'id', 'id', _D(at=0, map={'1': 1800, '2': 1800, '3': 1900, '4': 1900, '5': 2000, '6': 2000, '7': 2100, '8': 2100})),
+    'stdnum.lt.asmens': ((1, 3), (3, 5), (5, 7), 'id', 'id', _D(at=0, map={'1': 1800, '2': 1800, '3': 1900, '4': 1900, '5': 2000, '6': 2000})),
+    'stdnum.ro.cnp': ((1, 3), (3, 5), (5, 7), 'id', 'id', _D(at=0, map={'1': 1900, '2': 1900, '3': 1800, '4': 1800, '5': 2000, '6': 2000})),
     'stdnum.za.idnr': ((0, 2), (2, 4), (4, 6), 'id', 'id', None),
-    'stdnum.kr.rrn': ((0, 2), (2, 4), (4, 6), 'id', 'id', None),
-    'stdnum.no.fodselsnummer': ((4, 6), (2, 4), (0, 2), 'mod40', 'mod40', None),
-    'stdnum.cu.ni': ((0, 2), (2, 4), (4, 6), 'id', 'id', None),
+    'stdnum.kr.rrn': ((0, 2), (2, 4), (4, 6), 'id', 'id', _D(at=6, map={'1': 1900, '2': 1900, '5': 1900, '6': 1900, '3': 2000, '4': 2000, '7': 2000, '8': 2000, '9': 1800, '0': 1800})),
+    'stdnum.no.fodselsnummer': ((4, 6), (2, 4), (0, 2), 'mod40', 'mod40', 'fnr'),
+    'stdnum.cu.ni': ((0, 2), (2, 4), (4, 6), 'id', 'id', _D(at=6, map={'9': 1800, '0': 1900, '1': 1900, '2': 1900, '3': 1900, '4': 1900, '5': 1900, '6': 2000, '7': 2000, '8': 2000})),
     'stdnum.gr.amka': ((4, 6), (2, 4), (0, 2), 'id', 'id', None),
     'stdnum.id.nik': ((10, 12), (8, 10), (6, 8), 'id', 'mod40', None),
-    'stdnum.lv.pvn': ((4, 6), (2, 4), (0, 2), 'id', 'id', None),
-    'stdnum.mx.curp': ((4, 6), (6, 8), (8, 10), 'id', 'id', None),
+    'stdnum.lv.pvn': ((4, 6), (2, 4), (0, 2), 'id', 'id', _D(at=6, map={'0': 1800, '1': 1900, '2': 2000})),
+    'stdnum.mx.curp': ((4, 6), (6, 8), (8, 10), 'id', 'id', _D(at=16, map=dict([(c, 1900) for c in '0123456789'] + [(c, 2000) for c in 'ABCDEFGHIJKLMNOPQRSTUVWXYZ']))),
     'stdnum.my.nric': ((0, 2), (2, 4), (4, 6), 'id', 'id', None),
     'stdnum.cn.ric': ((6, 10), (10, 12), (12, 14), 'id', 'id', None),       # four-digit year
-    'stdnum.si.emso': ((4, 7), (2, 4), (0, 2), 'id', 'id', None),           # three-digit year
+    'stdnum.si.emso': ((4, 7), (2, 4), (0, 2), 'id', 'id', 'emso'),         # three-digit year
 }
